@@ -601,15 +601,44 @@ func (x *sut) del(ids []int32) {
 }
 
 func (x *sut) reset(m int, limit int64) {
-	x.h.Op("reset %d %d %d", m, limit, x.now)
+	x.h.Op("resetr %d %d %d", m, limit, x.now)
 	x.guard(func() {
 		before, after, err := x.db.ResetFlood(x.ctx, metricStr(m), limit)
 		if err != nil {
 			x.h.Obs("err %s", classify(err))
 			return
 		}
-		x.h.Obs("before=%d after=%d", before, after)
+		// what the reset really stored: the metric's flood row, read back from the table
+		row := "none"
+		var stored *metadata.VerifFlood
+		if st, err := metadata.VerifDump(x.db); err == nil {
+			for i := range st.Flood {
+				if st.Flood[i].Metric == metricStr(m) {
+					stored = &st.Flood[i]
+					row = fmt.Sprintf("%d:%d", stored.Last, stored.Free)
+				}
+			}
+		}
+		x.h.Obs("before=%d after=%d row=%s", before, after, row)
 		x.h.Stat("reset", 1)
+		// ---- oracle: "the value set by a flood reset" is at most min(requested value, ceiling) and at most what the reply reports
+		if stored != nil && limit > 0 {
+			ceil := int64(metadata.VerifMaxResetLimit)
+			want := limit
+			if want > ceil {
+				want = ceil
+				x.h.Stat("reset.above-ceiling", 1)
+			}
+			if stored.Free > want {
+				x.h.Viol("reset-budget-above-ceiling", "reset of metric %d to %d stored a budget of %d, allowed min(value, %d) = %d", m, limit, stored.Free, ceil, want)
+			}
+			if stored.Free > after {
+				x.h.Viol("reset-budget-above-reported", "reset of metric %d to %d reports BudgetAfter=%d but stored %d", m, limit, after, stored.Free)
+			}
+		}
+		if stored != nil && limit <= 0 {
+			x.h.Viol("reset-budget-above-ceiling", "reset of metric %d to the default (value %d) left a flood row with budget %d", m, limit, stored.Free)
+		}
 		b := x.maxBudget
 		if after > b {
 			b = after
@@ -1003,7 +1032,8 @@ func mappingOp(x *sut, r *verifx.Rng, nkeys, nmetrics int) {
 		}
 		x.del(ids)
 	case 3:
-		lim := []int64{0, -1, 1, 2, x.maxBudget - 1, x.maxBudget, x.maxBudget + 1, x.maxBudget + 3, 9999, 10000, 10001, 20000}[r.Intn(12)]
+		ceil := int64(metadata.VerifMaxResetLimit)
+		lim := []int64{0, -1, 1, 2, x.maxBudget - 1, x.maxBudget, x.maxBudget + 1, x.maxBudget + 3, ceil - 1, ceil, ceil + 1, 2 * ceil, 2147483647, ceil + int64(r.Range(2, 5000))}[r.Intn(14)]
 		x.reset(r.Intn(nmetrics), lim)
 	case 4:
 		x.byval(r.Intn(nkeys))
@@ -1551,6 +1581,26 @@ func historyC19(h *verifx.H, r *verifx.Rng) {
 	}
 }
 
+// bigResetC19 (thorough tier, once per run): a reset far above the ceiling followed by ceiling+50 real creations in one step —
+// exactly `ceiling` of them may succeed, the rest must answer flood-limit
+func bigResetC19(h *verifx.H, r *verifx.Rng) {
+	x := openSut(h, 3, 60, 1, 0, int64(r.Range(1_000_000, 2_000_000)))
+	defer x.close()
+	x.gc(1, 0)
+	x.reset(1, 2147483647)
+	n := int(metadata.VerifMaxResetLimit) + 50
+	for k := 1; k <= n; k++ {
+		x.gc(1, k)
+	}
+	x.newmaps(int32(n-60), 1000)
+	x.h.Op("dumpe")
+	x.dumpNoHistory()
+	if x.flags["flood"] {
+		h.NonTrivial("flood-limit-hit")
+	}
+	h.Stat("case.big-reset", 1)
+}
+
 func pureC19(h *verifx.H, r *verifx.Rng) {
 	h.Op("cfg 1000 3600 10 1000000")
 	edge := func(c int64) int64 { return c + int64(r.Range(-2, 2)) }
@@ -1677,7 +1727,7 @@ func scriptCase(h *verifx.H) {
 				}
 			}
 			x.del(ids)
-		case t[0] == "reset" && len(t) == 4:
+		case (t[0] == "reset" || t[0] == "resetr") && len(t) == 4:
 			x.now = atoi(t[3])
 			x.reset(int(atoi(t[1])), atoi(t[2]))
 		case t[0] == "byval" && len(t) == 2:
@@ -1711,7 +1761,9 @@ func main() {
 	h.Cases(func(i int, r *verifx.Rng) {
 		switch h.Mode {
 		case "c19":
-			if i%6 == 5 {
+			if h.Tier == "thorough" && i == 7 && h.Seed%1000 == 0 {
+				bigResetC19(h, r)
+			} else if i%6 == 5 {
 				pureC19(h, r)
 			} else {
 				historyC19(h, r)
